@@ -1,6 +1,6 @@
 (* C08/ProofsMap.v — the key order and sorted association lists: lemmas. *)
 From Common Require Import Bytes.
-From C08 Require Import ModelMap.
+From C08 Require Import ModelMap Model.
 From Coq Require Import Sorting.Sorted.
 Local Open Scope N_scope.
 
@@ -298,4 +298,161 @@ Lemma kmem_in k l : kmem k l = true <-> In k l.
 Proof.
   induction l as [|x l IH]; cbn; [split; [discriminate|contradiction]|].
   rewrite orb_true_iff, IH, keqb_eq. split; intros [H|H]; auto.
+Qed.
+
+(* ------------------------------------------------------------------ more on maps *)
+
+Lemma klt_irrefl a : ~ klt a a.
+Proof. unfold klt. rewrite kcmp_refl. discriminate. Qed.
+Lemma klt_trans a b c : klt a b -> klt b c -> klt a c.
+Proof. apply kcmp_lt_trans. Qed.
+Lemma klt_asym a b : klt a b -> ~ klt b a.
+Proof. intros H1 H2. exact (klt_irrefl _ (klt_trans _ _ _ H1 H2)). Qed.
+Lemma klt_total a b : klt a b \/ a = b \/ klt b a.
+Proof. destruct (k_total a b) as [H|[H|H]]; [left|right;left|right;right]; try apply kltb_lt; auto. Qed.
+Lemma kltb_klt a b : kltb a b = true <-> klt a b.
+Proof. apply kltb_lt. Qed.
+
+Section MoreLemmas.
+  Context {V : Type}.
+  Implicit Types m : omap V.
+
+  Lemma om_mem_put k k' v m : wf m -> om_mem k (om_put k' v m) = keqb k k' || om_mem k m.
+  Proof. intro W. unfold om_mem. rewrite om_get_put by exact W. now destruct (keqb k k'). Qed.
+  Lemma om_mem_del k k' m : wf m -> om_mem k (om_del k' m) = negb (keqb k k') && om_mem k m.
+  Proof. intro W. unfold om_mem. rewrite om_get_del by exact W. now destruct (keqb k k'). Qed.
+
+  Lemma kmem_keys k m : wf m -> kmem k (om_keys m) = om_mem k m.
+  Proof.
+    intro W. destruct (om_mem k m) eqn:E.
+    - apply kmem_in. now apply om_get_key_in.
+    - destruct (kmem k (om_keys m)) eqn:E2; [|reflexivity].
+      apply kmem_in in E2. apply om_get_key_in in E2; [|exact W]. congruence.
+  Qed.
+
+  (* folding puts of the entries of a sorted map *)
+  Lemma wf_fold_put (l : omap V) m : wf m ->
+    wf (fold_left (fun acc kv => om_put (fst kv) (snd kv) acc) l m).
+  Proof. revert m; induction l as [|[k v] r IH]; intros m W; [exact W|]. cbn. apply IH. now apply wf_put. Qed.
+
+  Lemma om_get_fold_put (l : omap V) k m : wf l -> wf m ->
+    om_get k (fold_left (fun acc kv => om_put (fst kv) (snd kv) acc) l m) =
+    match om_get k l with Some v => Some v | None => om_get k m end.
+  Proof.
+    revert m; induction l as [|[k1 v1] r IH]; intros m Wl W; [reflexivity|].
+    pose proof (wf_cons_inv _ _ _ Wl) as [Wr F]. cbn [fold_left fst snd].
+    rewrite IH by (try assumption; now apply wf_put). rewrite om_get_put by exact W.
+    cbn [om_get]. unfold keqb. destruct (kcmp k k1) eqn:C.
+    - apply kcmp_eq in C. subst k1. now rewrite (om_get_lt_none _ _ F).
+    - rewrite om_get_lt_none; [reflexivity|]. eapply Forall_klt_trans; eassumption.
+    - reflexivity.
+  Qed.
+
+  (* ---- least key above k *)
+  Definition least_gt (P : key -> Prop) (k : key) (r : option key) : Prop :=
+    match r with
+    | Some k' => P k' /\ klt k k' /\ forall k'', P k'' -> klt k k'' -> ~ klt k'' k'
+    | None => forall k'', P k'' -> ~ klt k k''
+    end.
+
+  Lemma least_gt_unique P k r1 r2 : least_gt P k r1 -> least_gt P k r2 -> r1 = r2.
+  Proof.
+    destruct r1 as [a|], r2 as [b|]; cbn; intros H1 H2; try reflexivity.
+    - destruct H1 as (Pa & La & Ma), H2 as (Pb & Lb & Mb).
+      destruct (klt_total a b) as [L|[E|L]]; [|now subst|].
+      + exfalso. exact (Mb a Pa La L).
+      + exfalso. exact (Ma b Pb Lb L).
+    - destruct H1 as (Pa & La & _). exfalso. exact (H2 a Pa La).
+    - destruct H2 as (Pb & Lb & _). exfalso. exact (H1 b Pb Lb).
+  Qed.
+
+  Lemma least_gt_iff P Q k r : (forall x, P x <-> Q x) -> least_gt P k r -> least_gt Q k r.
+  Proof.
+    intros E. destruct r as [a|]; cbn.
+    - intros (Pa & La & Ma). repeat split; [now apply E | exact La |].
+      intros k'' Qk. apply Ma. now apply E.
+    - intros H k'' Qk. apply H. now apply E.
+  Qed.
+
+  Lemma om_next_least k m : wf m -> least_gt (fun x => om_mem x m = true) k (om_next k m).
+  Proof.
+    induction m as [|[k1 v1] r IH]; intro W.
+    - cbn. intros k'' H. discriminate.
+    - pose proof (wf_cons_inv _ _ _ W) as [Wr F]. cbn [om_next].
+      destruct (kltb k k1) eqn:L.
+      + cbn. apply kltb_klt in L. repeat split.
+        * unfold om_mem. cbn. now rewrite kcmp_refl.
+        * exact L.
+        * intros k'' M _ L2. unfold om_mem in M. cbn in M.
+          destruct (kcmp k'' k1) eqn:C; try discriminate.
+          -- apply kcmp_eq in C. subst. exact (klt_irrefl _ L2).
+          -- unfold klt in L2. congruence.
+      + specialize (IH Wr).
+        assert (NL : ~ klt k k1) by (intro X; apply kltb_klt in X; congruence).
+        assert (Mem : forall x, om_mem x ((k1, v1) :: r) = true <-> x = k1 \/ om_mem x r = true).
+        { intro x. unfold om_mem. cbn. destruct (kcmp x k1) eqn:C.
+          - apply kcmp_eq in C. subst. split; auto.
+          - rewrite om_get_lt_none by (eapply Forall_klt_trans; eassumption).
+            split; [discriminate|]. intros [->|H]; [|discriminate].
+            rewrite kcmp_refl in C. discriminate.
+          - split; [auto|]. intros [->|H]; [|exact H]. rewrite kcmp_refl in C. discriminate. }
+        destruct (om_next k r) as [a|]; cbn in *.
+        * destruct IH as (Pa & La & Ma). repeat split; [apply Mem; now right | exact La |].
+          intros k'' M L2. apply Mem in M as [->|M]; [contradiction|]. now apply Ma.
+        * intros k'' M. apply Mem in M as [->|M]; [exact NL|]. now apply IH.
+  Qed.
+End MoreLemmas.
+
+Lemma ks_mem_add k k' s : wf s -> ks_mem k (ks_add k' s) = keqb k k' || ks_mem k s.
+Proof. intro W. unfold ks_mem, ks_add. now apply om_mem_put. Qed.
+
+Lemma next_not_deleted_least k (m : omap val) (deleted : kset) : wf m ->
+  least_gt (fun x => om_mem x m = true /\ ks_mem x deleted = false) k (next_not_deleted k m deleted).
+Proof.
+  induction m as [|[k1 v1] r IH]; intro W.
+  - cbn. intros k'' [H _]. discriminate.
+  - pose proof (wf_cons_inv _ _ _ W) as [Wr F]. cbn [next_not_deleted].
+    assert (Mem : forall x, om_mem x ((k1, v1) :: r) = true <-> x = k1 \/ om_mem x r = true).
+    { intro x. unfold om_mem. cbn. destruct (kcmp x k1) eqn:C.
+      - apply kcmp_eq in C. subst. split; auto.
+      - rewrite om_get_lt_none by (eapply Forall_klt_trans; eassumption).
+        split; [discriminate|]. intros [->|H]; [|discriminate].
+        rewrite kcmp_refl in C. discriminate.
+      - split; [auto|]. intros [->|H]; [|exact H]. rewrite kcmp_refl in C. discriminate. }
+    destruct (kltb k k1 && negb (ks_mem k1 deleted)) eqn:L.
+    + apply andb_prop in L as [L D]. apply kltb_klt in L. apply negb_true_iff in D.
+      cbn. repeat split; [apply Mem; now left | exact D | exact L |].
+      intros k'' [M _] _ L2. apply Mem in M as [->|M]; [exact (klt_irrefl _ L2)|].
+      apply om_get_key_in in M; [|exact Wr]. unfold om_keys in M. apply in_map_iff in M as [[kx vx] [E I]].
+      cbn in E. subst kx. rewrite Forall_forall in F. specialize (F _ I). cbn in F.
+      exact (klt_asym _ _ F L2).
+    + specialize (IH Wr).
+      assert (NL : ~ (klt k k1 /\ ks_mem k1 deleted = false)).
+      { intros [X Y]. apply kltb_klt in X. rewrite X, Y in L. discriminate. }
+      destruct (next_not_deleted k r deleted) as [a|]; cbn in *.
+      * destruct IH as ((Pa & Da) & La & Ma). repeat split; [apply Mem; now right | exact Da | exact La |].
+        intros k'' [M D] L2. apply Mem in M as [->|M]; [exfalso; apply NL; now split|]. apply Ma; [now split | exact L2].
+      * intros k'' [M D] L2. apply Mem in M as [->|M]; [apply NL; now split|]. exact (IH k'' (conj M D) L2).
+Qed.
+
+Lemma merge_next_least P Q k a b :
+  least_gt P k a -> least_gt Q k b -> least_gt (fun x => P x \/ Q x) k (merge_next a b).
+Proof.
+  destruct a as [a|], b as [b|]; cbn.
+  - intros (Pa & La & Ma) (Qb & Lb & Mb). destruct (kltb b a) eqn:C; cbn.
+    + apply kltb_klt in C. repeat split; [now right | exact Lb |].
+      intros k'' [H|H] L; [|now apply Mb].
+      intro X. apply (Ma k'' H L). exact (klt_trans _ _ _ X C).
+    + assert (NC : ~ klt b a) by (intro X; apply kltb_klt in X; congruence).
+      repeat split; [now left | exact La |].
+      intros k'' [H|H] L; [now apply Ma|].
+      intro X. destruct (klt_total a b) as [L2|[E|L2]].
+      * apply (Mb k'' H L). exact (klt_trans _ _ _ X L2).
+      * subst. exact (Mb k'' H L X).
+      * contradiction.
+  - intros (Pa & La & Ma) Hb. repeat split; [now left | exact La |].
+    intros k'' [H|H] L; [now apply Ma|]. exfalso. exact (Hb k'' H L).
+  - intros Ha (Qb & Lb & Mb). repeat split; [now right | exact Lb |].
+    intros k'' [H|H] L; [|now apply Mb]. exfalso. exact (Ha k'' H L).
+  - intros Ha Hb k'' [H|H]; [now apply Ha | now apply Hb].
 Qed.
